@@ -127,6 +127,18 @@ pub fn run(sink: &mut Sink, thorough: bool, seed: u64) {
                 sink.case("c16x", &[&cfg, ty, &enc(&v)], &o, &format!("c16x:{}:{}", ty, class), true);
             }
         }
+        // nesting at the text parser's recursion limit: from_value has no such limit (127 levels: all agree)
+        for depth in [126usize, 127, 128, 129, 200] {
+            for kind in 0..3 {
+                let mut v = json!(1);
+                for i in 0..depth { v = if kind == 0 || (kind == 2 && i % 2 == 0) { Value::Array(vec![v]) } else { let mut m = Map::new(); m.insert("k".into(), v); Value::Object(m) }; }
+                let text = serde_json::to_string(&v).unwrap();
+                for ty in ["value", "ignored", "jsonmap"] {
+                    let o = run_type(ty, &v, &text);
+                    sink.case("c16x", &[&cfg, ty, &enc(&v)], &o, &format!("c16x:{}:deep{}", ty, depth), true);
+                }
+            }
+        }
         for ty in TYPES {
             for _ in 0..60 {
                 let v = fit(ty, &mut r);
